@@ -312,6 +312,10 @@ class GridSearchOracle(oracle_module.Oracle):
                     hps.values[name] = all_values[name][index]
                     bumped_value = True
                     break
+            elif hps.is_active(name):
+                # Another entry of the same name (declared under another
+                # condition) is the active one: its value is not ours to reset.
+                continue
             # Otherwise, reset to its first value.
             hps.values[name] = default_values[name]
 
